@@ -186,7 +186,15 @@ int simfs_kernel_diff(int argc, char **argv) {
 	bool as_root = argc > 5 && std::string(argv[5]) == "root";
 	int tuid = as_root ? 0 : 65534;
 	if (geteuid() != 0) { fprintf(stderr, "simfs self-test needs root to drop to uid 65534\n"); return 2; }
-	std::string base = std::string(VERIF_DIR) + "/build/simfs-scratch-" + std::to_string(getpid());
+	// a real scratch directory that uid 65534 can reach (the checkout may live below a directory only root may enter),
+	// outside the checkout, created here and removed at the end
+	std::string tmpl = std::string(getenv("TMPDIR") && *getenv("TMPDIR") ? getenv("TMPDIR") : "/tmp") + "/simfs-scratch-XXXXXX";
+	std::vector<char> tb(tmpl.begin(), tmpl.end());
+	tb.push_back(0);
+	if (!mkdtemp(tb.data())) { fprintf(stderr, "cannot create a scratch directory from %s\n", tmpl.c_str()); return 2; }
+	::chmod(tb.data(), 0755);
+	std::string top = tb.data();
+	std::string base = top + "/s";
 	int bad = 0;
 	uint64_t nops = 0, nerr = 0;
 	std::map<std::string, int> errhist;
@@ -272,6 +280,7 @@ int simfs_kernel_diff(int argc, char **argv) {
 		}
 	}
 	rm_rf(base);
+	rm_rf(top);
 	printf("simfs-vs-kernel (as uid %d): %d sequences, %llu operations (%llu failing with an errno, both sides agreeing), %d mismatching sequences\n", tuid, nseq,
 	       (unsigned long long) nops, (unsigned long long) nerr, bad);
 	for (auto &e : errhist) printf("  errno %-28s %d\n", e.first.c_str(), e.second);
